@@ -137,6 +137,9 @@ pub struct Snap {
     pub portals: Vec<String>,
     pub skip: bool,
     pub unsent: usize,
+    /// extended-protocol messages have been processed since the last Sync (or simple Query): the implicit
+    /// transaction they run in is still open
+    pub pending_sync: bool,
 }
 
 impl Snap {
@@ -838,6 +841,7 @@ impl Session {
         match m.code {
             b'Q' => {
                 self.snap.skip = false;
+                self.snap.pending_sync = false;
                 // "a simple Query message also destroys the unnamed statement" (and the unnamed portal)
                 self.snap.stmts.remove("");
                 self.portals.remove("");
@@ -869,6 +873,7 @@ impl Session {
             b'X' => return Flow::Close,
             b'S' => {
                 self.snap.skip = false;
+                self.snap.pending_sync = false;
                 if self.txn_snapshot.is_none() {
                     // implicit transaction ends: portals go, the unnamed statement stays
                     self.portals.clear();
@@ -878,6 +883,10 @@ impl Session {
             b'H' => {}
             b'd' | b'c' | b'f' => {} // ignored outside COPY
             _ if self.snap.skip => {}
+            b'P' | b'B' | b'D' | b'E' | b'C' if !self.snap.pending_sync => {
+                self.snap.pending_sync = true;
+                return self.dispatch(m);
+            }
             b'P' => match wire::decode_parse(m) {
                 None => {
                     self.error("08P01", "invalid message format");
@@ -1042,14 +1051,25 @@ async fn read_exact_or_eof(s: &mut DuplexStream, n: usize) -> Option<Vec<u8>> {
     }
 }
 
-async fn read_typed(s: &mut DuplexStream) -> Option<Msg> {
-    let head = read_exact_or_eof(s, 5).await?;
-    let len = i32::from_be_bytes(head[1..5].try_into().unwrap());
-    if !(4..=(64 << 20)).contains(&len) {
-        return None;
+/// Ok(None) = the peer closed between two messages; Err(code) = the stream ended inside a message.
+async fn read_typed_checked(s: &mut DuplexStream) -> Result<Option<Msg>, u8> {
+    let mut first = [0u8; 1];
+    match s.read(&mut first).await {
+        Ok(0) | Err(_) => return Ok(None),
+        Ok(_) => {}
     }
-    let body = read_exact_or_eof(s, len as usize - 4).await?;
-    Some(Msg { code: head[0], body })
+    let rest = match read_exact_or_eof(s, 4).await {
+        Some(r) => r,
+        None => return Err(first[0]),
+    };
+    let len = i32::from_be_bytes(rest[0..4].try_into().unwrap());
+    if !(4..=(64 << 20)).contains(&len) {
+        return Ok(None);
+    }
+    match read_exact_or_eof(s, len as usize - 4).await {
+        Some(body) => Ok(Some(Msg { code: first[0], body })),
+        None => Err(first[0]),
+    }
 }
 
 /// Write `out` honouring gating and segmentation. Returns false if the peer is gone.
@@ -1255,9 +1275,14 @@ async fn serve_inner(net: Shared, id: usize, addr: String, s: &mut DuplexStream)
         while net.lock().servers.get(&addr).map(|sp| sp.pause_reads).unwrap_or(false) {
             tokio::time::sleep(std::time::Duration::from_millis(100)).await;
         }
-        let m = match read_typed(s).await {
-            Some(m) => m,
-            None => {
+        let m = match read_typed_checked(s).await {
+            Ok(Some(m)) => m,
+            Ok(None) => {
+                close("peer");
+                return;
+            }
+            Err(code) => {
+                net.lock().push(Rec::Note { msg: format!("conn {} TORN-MESSAGE: the stream ended inside a '{}' message", id, code as char) });
                 close("peer");
                 return;
             }
@@ -1359,6 +1384,22 @@ async fn serve_inner(net: Shared, id: usize, addr: String, s: &mut DuplexStream)
             let out = std::mem::take(&mut sess.out);
             sess.publish();
             if !deliver(&net, id, &addr, s, out, None).await {
+                // the peer is gone: what it had already written is still ours to read (and to judge: whole
+                // messages are logged, a message cut short is reported)
+                loop {
+                    match read_typed_checked(s).await {
+                        Ok(Some(m)) => {
+                            let mut st = sess.snap.clone();
+                            st.unsent = 0;
+                            net.lock().push(Rec::BRecv { conn: id, msg: m, st });
+                        }
+                        Ok(None) => break,
+                        Err(code) => {
+                            net.lock().push(Rec::Note { msg: format!("conn {} TORN-MESSAGE: the stream ended inside a '{}' message", id, code as char) });
+                            break;
+                        }
+                    }
+                }
                 close("peer");
                 return;
             }
